@@ -9,9 +9,8 @@ BAD = {"BitCast", "LValueBitCast", "IntegralToPointer", "PointerToIntegral", "Re
 GOOD_DOWN = {"BaseToDerived", "Dynamic"}
 
 
-def check(run):
+def check(run, rule="C11-casts", only_casts=False):
     from . import c11
-    rule = "C11-casts"
     run.rule(rule, "conversions between class pointers/references on the argument path are DerivedToBase/BaseToDerived/Dynamic, never bit casts", floor=20)
     u = c11.types_unit(run.tier)
     # the must-compile programs (all parameter kinds x inheritance shapes) instantiate the conversion helpers
@@ -43,6 +42,8 @@ def check(run):
     if down < 2:
         run.broken.append("C11-casts saw only %d BaseToDerived/Dynamic casts in the conversion helpers" % down)
 
+    if only_casts:
+        return
     ownership_rule(run, ast)
     thunk_rule(run, ast)
     conv_source_rule(run)
